@@ -1051,16 +1051,19 @@ static ChildRes run_child(Scenario sc, const Case &c, long k, bool persistent) {
     exit(0);
   }
   close(p[1]);
-  std::string t;
-  char buf[4096];
-  ssize_t r;
-  while ((r = read(p[0], buf, sizeof buf)) > 0 || (r < 0 && errno == EINTR))
-    if (r > 0) t.append(buf, r);
+  bool blocked = false;
+  std::string t = pbt::detail::read_child_report(p[0], pid, 45, &blocked);
   close(p[0]);
   int wst = 0;
   while (waitpid(pid, &wst, 0) < 0 && errno == EINTR) {
   }
   ChildRes cr;
+  if (blocked) {
+    cr.crashed = true;
+    cr.sig = "blocked";
+    cr.msg = "process slept in a system call for 45 s without using any CPU time (blocks for ever)";
+    return cr;
+  }
   Case oc = from_text(t);
   if (WIFSIGNALED(wst) || (WIFEXITED(wst) && WEXITSTATUS(wst) != 0) || oc.size() < 2 || oc[0].a.size() < 5) {
     cr.crashed = true;
